@@ -359,3 +359,110 @@ Section Region.
     destruct (Hc g x Hbx) as [Hu _]. rewrite <- (Hu y (Hfwd g y Hby)). exact Hby.
   Qed.
 End Region.
+
+(* ---- rules of one and the same region: the earlier rule's replacement stands ------------------- *)
+(* the replacement of g by the first rule, in rule order, whose normalized region is r' and that
+   replaces g at all *)
+Fixpoint region_lookup (U : Z) (rules : list rule) (r' : region) (g : glyph) : option glyph :=
+  match rules with
+  | [] => None
+  | (reg, s) :: t =>
+      if region_eqb (region_normalize U reg) r'
+      then match kv_find s g with Some x => Some x | None => region_lookup U t r' g end
+      else region_lookup U t r' g
+  end.
+
+Section SameRegion.
+  Variable U : Z.
+
+  Lemma region_eqb_refl r : region_eqb r r = true.
+  Proof. now apply region_eqb_eq. Qed.
+
+  Lemma region_lookup_absent P r' g :
+    (forall reg s, In (reg, s) P -> region_normalize U reg <> r') -> region_lookup U P r' g = None.
+  Proof.
+    induction P as [|[reg s] t IH]; intros H; cbn [region_lookup]; [reflexivity|].
+    destruct (region_eqb (region_normalize U reg) r') eqn:E.
+    - apply region_eqb_eq in E. exfalso. apply (H reg s); [now left|exact E].
+    - apply IH. intros reg' s' Hin. apply (H reg' s'). now right.
+  Qed.
+
+  Lemma msr_insert_keys acc r s :
+    map fst (msr_insert acc r s) = if existsb (region_eqb r) (map fst acc) then map fst acc else map fst acc ++ [r].
+  Proof.
+    induction acc as [|[r' s'] t IH]; cbn [msr_insert map fst existsb]; [reflexivity|].
+    destruct (region_eqb r r') eqn:E; cbn [orb map fst]; [reflexivity|].
+    rewrite IH. destruct (existsb (region_eqb r) (map fst t)); reflexivity.
+  Qed.
+
+  Lemma msr_insert_entries acc r s r' s' : NoDup (map fst acc) -> In (r', s') (msr_insert acc r s) ->
+    (r' <> r /\ In (r', s') acc) \/
+    (r' = r /\ ((exists s0, In (r, s0) acc /\ s' = kv_extend s0 s) \/ (~ In r (map fst acc) /\ s' = s))).
+  Proof.
+    induction acc as [|[r1 s1] t IH]; cbn [msr_insert map fst]; intros Hnd Hin.
+    - destruct Hin as [Heq|[]]. inversion Heq; subst. right. split; [reflexivity|]. right. split; [intros []|reflexivity].
+    - inversion Hnd as [|? ? Hni Hnd']; subst. destruct (region_eqb r r1) eqn:E.
+      + apply region_eqb_eq in E. subst r1. destruct Hin as [Heq|Hin].
+        * inversion Heq; subst. right. split; [reflexivity|]. left. exists s1. split; [now left|reflexivity].
+        * left. split; [|now right]. intros ->. apply Hni. apply in_map_iff. now exists (r, s').
+      + assert (Hne : r1 <> r) by (intros ->; rewrite region_eqb_refl in E; discriminate).
+        destruct Hin as [Heq|Hin].
+        * inversion Heq; subst. left. split; [exact Hne|now left].
+        * destruct (IH Hnd' Hin) as [[H1 H2]|[H1 [[s0 [H2 H3]]|[H2 H3]]]].
+          -- left. split; [exact H1|now right].
+          -- right. split; [exact H1|]. left. exists s0. split; [now right|exact H3].
+          -- right. split; [exact H1|]. right. split; [|exact H3]. intros [Hc|Hc]; [congruence|contradiction].
+  Qed.
+
+  Definition msr_inv (acc : list (region * submap)) (P : list rule) : Prop :=
+    NoDup (map fst acc) /\
+    (forall r' s', In (r', s') acc -> forall g, kv_find s' g = region_lookup U P r' g) /\
+    (forall reg s, In (reg, s) P -> In (region_normalize U reg) (map fst acc)).
+
+  Lemma msr_insert_inv acc P reg s : keys_sorted s -> msr_inv acc P ->
+    msr_inv (msr_insert acc (region_normalize U reg) s) ((reg, s) :: P).
+  Proof.
+    intros Hs [Hnd [Hlk Hcov]]. set (r := region_normalize U reg).
+    assert (Hex : existsb (region_eqb r) (map fst acc) = true <-> In r (map fst acc)).
+    { rewrite existsb_exists. split; [intros [x [Hx E]]; apply region_eqb_eq in E; now subst|intros H; exists r; split; [exact H|apply region_eqb_refl]]. }
+    split; [|split].
+    - rewrite msr_insert_keys. destruct (existsb (region_eqb r) (map fst acc)) eqn:E; [exact Hnd|].
+      assert (Hni : ~ In r (map fst acc)) by (intros H; apply Hex in H; congruence).
+      clear -Hnd Hni. induction (map fst acc) as [|y t IH]; cbn [app]; [constructor; [intros []|constructor]|].
+      inversion Hnd; subst. constructor.
+      + intros Hin. apply in_app_or in Hin as [Hin|[<-|[]]]; [contradiction|]. apply Hni. now left.
+      + apply IH; [assumption|]. intros Hin. apply Hni. now right.
+    - intros r' s' Hin g. cbn [region_lookup]. fold r.
+      destruct (msr_insert_entries acc r s r' s' Hnd Hin) as [[Hne Hold]|[-> [[s0 [Hold ->]]|[Hni ->]]]].
+      + assert (E : region_eqb r r' = false) by (destruct (region_eqb r r') eqn:E; [apply region_eqb_eq in E; congruence|reflexivity]).
+        rewrite E. now apply Hlk.
+      + rewrite region_eqb_refl, kv_find_extend, (kv_find_rev s g Hs).
+        destruct (kv_find s g); [reflexivity|]. now apply Hlk.
+      + rewrite region_eqb_refl. destruct (kv_find s g); [reflexivity|]. symmetry. apply region_lookup_absent.
+        intros reg' s' Hin' Heq. apply Hni. rewrite <- Heq. now apply (Hcov reg' s').
+    - intros reg' s' [Heq|Hin'].
+      + inversion Heq; subst. rewrite msr_insert_keys. fold r.
+        destruct (existsb (region_eqb r) (map fst acc)) eqn:E; [now apply Hex|apply in_or_app; right; now left].
+      + rewrite msr_insert_keys. specialize (Hcov _ _ Hin').
+        destruct (existsb (region_eqb r) (map fst acc)); [exact Hcov|apply in_or_app; now left].
+  Qed.
+
+  Lemma msr_fold_inv l : forall acc P, (forall e, In e l -> keys_sorted (snd e)) -> msr_inv acc P ->
+    msr_inv (msr_fold U l acc) (rev l ++ P).
+  Proof.
+    induction l as [|[reg s] t IH]; intros acc P Hs Hinv; cbn [msr_fold fold_left rev app fst snd]; [exact Hinv|].
+    rewrite <- app_assoc. cbn [app]. apply (IH _ _ (fun e He => Hs e (or_intror He))).
+    apply msr_insert_inv; [exact (Hs (reg, s) (or_introl eq_refl))|exact Hinv].
+  Qed.
+
+  (* after merge_same_region_rules, the rule that stands for a region replaces a glyph by what the
+     EARLIEST rule of that region says *)
+  Lemma msr_earlier_wins rules r' s' : (forall r, In r rules -> keys_sorted (snd r)) ->
+    In (r', s') (merge_same_region_rules U rules) -> forall g, kv_find s' g = region_lookup U rules r' g.
+  Proof.
+    intros Hs Hin g. apply msr_In in Hin.
+    destruct (msr_fold_inv (rev rules) [] [] (fun e He => Hs e (proj2 (in_rev _ _) He))) as [_ [Hlk _]].
+    { split; [constructor|]. split; [intros ? ? []|intros ? ? []]. }
+    rewrite rev_involutive, app_nil_r in Hlk. now apply Hlk.
+  Qed.
+End SameRegion.
